@@ -13,7 +13,7 @@ RULE = ('cases = (i) cutoff+dr: every decimal step with <= 3 decimals in [0.001,
         '(iv) rejection: all three, step alone, zero / negative / non-numeric values of all six keys; (v) defaults for every subset of omitted keys; '
         '(vi) end-to-end: every tabulation target x (step, count, cutoff) triples incl. float-awkward ones, rows counted and spacing measured with the '
         'independent readers; all through the public ConfigParser / Configuration route; every lattice point evaluated; non-trivial = every pair')
-RULE += "; steps with 7 decimals; documented target synonyms; the same triples through the potable command line into a pre-filled OUTPUT_FILE; zero / nan / inf / 1e-320 grid values and all-three-with-a-zero rejected; the tabulation object's nr / cutoff / dr (nrho / cutoff_rho / drho) properties describe the written grid; (cutoff, nr) row-count sweep over every target"
+RULE += "; steps with 7 decimals; documented target synonyms; the same triples through the potable command line into a pre-filled OUTPUT_FILE; zero / nan / inf / 1e-320 grid values and all-three-with-a-zero rejected; the tabulation object's nr / cutoff / dr (nrho / cutoff_rho / drho) properties describe the written grid; (cutoff, nr) row-count sweep over every target; the two grids stated independently: every ordered pair of 6 different (step, rows, cutoff) triples for r and rho, each stated 3 ways, for every many-body target"
 ASSUMPTIONS = [
     'decimal text is rendered as the shortest decimal literal (what a user types); k*step is computed exactly with decimal arithmetic',
     'cutoff=(nr-1)*dr is compared as a float product within 2 ulp; dr=cutoff/(nr-1) is observed through the written table',
@@ -116,6 +116,17 @@ def cases(tier):
                 if (st, n) in (('0.1', 4), ('0.05', 13), ('0.2', 16)):
                     # the same through the potable command line into an OUTPUT_FILE that already holds a longer, older tabulation
                     out.append(dict(kind='e2e', target=tgt, step=st, n=nn, cutoff=cut, combo=combo, via='potable'))
+    # (vi-a2) the two grids are independent: different (step, rows, cutoff) triples for r and rho, every ordered pair of 6 triples, 3 ways of stating each
+    t6 = [('0.1', 4, '0.3'), ('0.05', 13, '0.6'), ('0.2', 16, '3.0'), ('0.3', 11, '3.0'), ('0.025', 81, '2.0'), ('0.5', 3, '1.0')]
+    for tgt in TARGETS:
+        if tgt in ('LAMMPS', 'DLPOLY', 'GULP', 'excel'):
+            continue
+        for a_ in t6:
+            for b_ in t6:
+                if a_ == b_:
+                    continue
+                for ci, combo in enumerate(('cutoff+dr', 'nr+dr', 'cutoff+nr')):
+                    out.append(dict(kind='e2e', target=tgt, step=a_[0], n=a_[1], cutoff=a_[2], combo=combo, rho=[b_[0], b_[1], b_[2], ('cutoff+dr', 'nr+dr', 'cutoff+nr')[(ci + 1) % 3]]))
     # (vi-b) row-count sweep: cutoff + nr on a (cutoff, nr) lattice for every target (the step is then not a short decimal)
     cuts = [Decimal(k) / 10 for k in (range(1, 151, 7) if tier == 'quick' else range(1, 151))] + [Decimal(10), Decimal(12)]
     ns = list(range(3, 41)) + [107, 120, 651]
@@ -314,7 +325,9 @@ def run_e2e(case):
     tgt, st, n, cut, combo = case['target'], case['step'], case['n'], case['cutoff'], case['combo']
     eam = tgt not in ('LAMMPS', 'DLPOLY', 'GULP', 'excel')
 
-    def opts(NR, DR, CUT):
+    st2, n2, cut2, combo2 = case.get('rho') or (st, n, cut, combo)
+
+    def opts(NR, DR, CUT, st=st, n=n, cut=cut, combo=combo):
         if combo == 'cutoff+dr':
             return '%s : %s\n%s : %s\n' % (CUT, cut, DR, st)
         if combo == 'nr+dr':
@@ -322,7 +335,7 @@ def run_e2e(case):
         return '%s : %s\n%s : %d\n' % (CUT, cut, NR, n)
     tab = '[Tabulation]\ntarget : %s\n%s' % (case.get('spelling', tgt), opts('nr', 'dr', 'cutoff'))
     if eam:
-        tab += opts('nrho', 'drho', 'cutoff_rho')
+        tab += opts('nrho', 'drho', 'cutoff_rho', st2, n2, cut2, combo2)
     fs = tgt.endswith('_fs')
     ini = tab + '\n[Pair]\nA-A : as.polynomial 1 2 0.5\n'
     if eam:
@@ -345,7 +358,9 @@ def run_e2e(case):
         sf = float(st) if st is not None else cf / (n - 1)
         props = [('nr', tabobj.nr, n, 0), ('cutoff', tabobj.cutoff, (n - 1) * sf if combo == 'nr+dr' else cf, 1e-9), ('dr', tabobj.dr, ((n - 1) * sf if combo == 'nr+dr' else cf) / (n - 1), 1e-9)]
         if eam:
-            props += [('nrho', tabobj.nrho, n, 0), ('cutoff_rho', tabobj.cutoff_rho, (n - 1) * sf if combo == 'nr+dr' else cf, 1e-9), ('drho', tabobj.drho, ((n - 1) * sf if combo == 'nr+dr' else cf) / (n - 1), 1e-9)]
+            cf2 = float(cut2)
+            sf2 = float(st2) if st2 is not None else cf2 / (n2 - 1)
+            props += [('nrho', tabobj.nrho, n2, 0), ('cutoff_rho', tabobj.cutoff_rho, (n2 - 1) * sf2 if combo2 == 'nr+dr' else cf2, 1e-9), ('drho', tabobj.drho, ((n2 - 1) * sf2 if combo2 == 'nr+dr' else cf2) / (n2 - 1), 1e-9)]
         for pname, got, want, rel in props:
             if not abs(got - want) <= rel * abs(want):
                 V(viol, 'e2e-property:%s' % pname, '%s %s (%s, %d, %s): tabulation.%s = %r, the grid has %r' % (tgt, combo, st, n, cut, pname, got, want))
@@ -359,7 +374,8 @@ def run_e2e(case):
             V(viol, 'e2e-cutoff', 'DL_POLY %s: cutpot %r, expected %r' % (combo, t['cutpot'], cutf))
         return viol, 1
     nr, rs, nrho, rhos, u = grid_of(tgt, data, None)[:5]
-    for name, cnt, xs in (('r', nr, rs), ('rho', nrho, rhos)):
+    stf2 = float(st2) if st2 is not None else float(cut2) / (n2 - 1)
+    for name, cnt, xs, n, stf in (('r', nr, rs, n, stf), ('rho', nrho, rhos, n2, stf2)):
         if cnt is None:
             continue
         if cnt != n:
